@@ -172,6 +172,15 @@ fn fnv(bytes: &[u8]) -> String {
 /// Build `items` through one construction path; returns the bytes.
 pub fn build_via(path: &str, items: &[Kv], set: bool) -> Vec<u8> {
     let keys: Vec<Vec<u8>> = items.iter().map(|it| it.0.clone()).collect();
+    // streamed into a sink that accepts a few bytes per write / random prefixes with interrupts
+    if let Some(rest) = path.strip_prefix("sink:") {
+        use crate::scen_sink::{build_through, Policy};
+        let policy = match rest {
+            "random" => Policy::Random { short: 50, intr: 15 },
+            cap => Policy::Cap(cap.parse().unwrap()),
+        };
+        return build_through(items, set, policy, 7).unwrap_or_else(|e| format!("build failed: {}", e).into_bytes());
+    }
     // several entry points on one builder: "<first>+<second>@<cut>", each of ins / iter / stream
     if let Some(at) = path.find('@') {
         let cut: usize = path[at + 1..].parse().unwrap();
@@ -384,6 +393,13 @@ pub fn c15(log: &mut Log, seed: u64, tier: &str) {
                     let bytes = build_via(&path, items, *set);
                     log.ev(json!({"ev": "Built", "input": name, "path": path, "thread": 0, "pid": 0, "rep": 0, "digest": fnv(&bytes)}));
                 }
+            }
+        }
+        // nor on how the sink takes the bytes
+        if !big {
+            for path in ["sink:3", "sink:64", "sink:random"].iter() {
+                let bytes = build_via(path, items, *set);
+                log.ev(json!({"ev": "Built", "input": name, "path": path, "thread": 0, "pid": 0, "rep": 0, "digest": fnv(&bytes)}));
             }
         }
         // what else lives (or died) in the process must not matter: six builders fed in lock step
